@@ -642,7 +642,7 @@ pub fn configs_c14(tier: crate::registry::Tier, _seed: u64) -> Vec<crate::regist
     use crate::registry::{entry, Tier};
     let th = tier == Tier::Thorough;
     let mut v = Vec::new();
-    v.push(entry(Scalars { kind: ScalarKind::RatioRing, b: Some(if th { 6 } else { 3 }) }, if th { 20000 } else { 1500 }, if th { 3000.0 } else { 240.0 }));
+    v.push(entry(Scalars { kind: ScalarKind::RatioRing, b: Some(if th { 6 } else { 2 }) }, if th { 20000 } else { 1500 }, if th { 3000.0 } else { 150.0 }));
     v.push(entry(Scalars { kind: ScalarKind::RatioOrder, b: Some(if th { 8 } else { 4 }) }, if th { 20000 } else { 1500 }, if th { 3000.0 } else { 200.0 }));
     for d in [-1, -3, 2, 5, -2] {
         v.push(entry(Scalars { kind: ScalarKind::Quad(d), b: Some(1000) }, 3000, 120.0));
@@ -658,7 +658,7 @@ pub fn configs_c15(tier: crate::registry::Tier, _seed: u64) -> Vec<crate::regist
     v.push(entry(Euclid { kind: EucKind::IntGcd, b: if th { 30 } else { 12 } }, if th { 20000 } else { 2000 }, if th { 3000.0 } else { 240.0 }));
     for d in [-1, -3] {
         v.push(entry(Euclid { kind: EucKind::QuadDivRem(d), b: if th { 6 } else { 3 } }, if th { 20000 } else { 1500 }, if th { 3000.0 } else { 240.0 }));
-        v.push(entry(Euclid { kind: EucKind::QuadGcd(d), b: if th { 4 } else { 2 } }, if th { 20000 } else { 1500 }, if th { 3000.0 } else { 240.0 }));
+        v.push(entry(Euclid { kind: EucKind::QuadGcd(d), b: if th { 4 } else { 2 } }, if th { 20000 } else { 1500 }, if th { 3000.0 } else { 120.0 }));
         v.push(entry(Euclid { kind: EucKind::QuadUnits(d), b: 1000 }, 2000, 120.0));
     }
     v
